@@ -48,8 +48,11 @@ def run_all(cases, jobs=16, chunks_per_job=6):
     n = max(1, jobs * chunks_per_job)
     # contiguous blocks: cases of one component (and neighbouring parameter tuples) run in the same process, so that
     # state leaking from one construction into the next (C15) has a chance to show
+    # ... except the cold-start cases (component name ending in .cold), which each get a process of their own
+    cold = [l for l in cases if ".cold:" in l.split(" ", 2)[1]]
+    cases = [l for l in cases if ".cold:" not in l.split(" ", 2)[1]]
     size = max(1, -(-len(cases) // n))
-    chunks = [cases[i:i + size] for i in range(0, len(cases), size)]
+    chunks = [cases[i:i + size] for i in range(0, len(cases), size)] + [[l] for l in cold]
     model, impl, errors = {}, {}, []
     with cf.ThreadPoolExecutor(max_workers=jobs) as ex:
         futs = {}
